@@ -17,14 +17,14 @@ Theorem C03_wal_commit_exact : forall s frames commit s',
   exists f, ltxdir s' = ltxdir s ++ [f] /\
     l_min f = txid s + 1 /\ l_max f = txid s + 1 /\ l_pre f = chk s /\ l_post f = chk s' /\ l_commit f = commit /\
     txid s' = txid s + 1 /\ pageN s' = commit /\ dbfile s' = dbfile s /\
-    (forall p q, In (p, q) (l_pages f) <-> (p <> lockpg s /\ last_frame p frames = Some q)).
+    (forall p q, In (p, q) (l_pages f) <-> (p <> lockpg s /\ p <= commit /\ last_frame p frames = Some q)).
 Proof. exact wal_commit_exact. Qed.
 
 (* and the checksum it reports is the from-scratch one (shared with C04) *)
 Theorem C03_wal_commit_checksum : forall s frames commit s',
   CacheOK s -> LockZero s -> (forall p, pageN s < p -> dbc s p = 0) ->
   op_commit_wal s frames commit = (Done, s') ->
-  chk s' = scratch (eff s commit (tx_new s frames)) commit /\
+  chk s' = scratch (eff s commit (tx_new s frames commit)) commit /\
   txid s' = txid s + 1 /\ pageN s' = commit /\ CacheOK s' /\ (forall p, dbc s' p = dbc s p).
 Proof. exact commit_wal_checksum. Qed.
 
@@ -36,4 +36,14 @@ Example C03_nonvacuous :
   let '(o, s') := op_commit_wal s [(1, mkPg (fl 5) 256 true); (5, mkPg (fl 6) 0 false); (1, mkPg (fl 7) 256 true)] 256 in
   (o, txid s', pageN s', map (fun f => map (fun kv => (fst kv, pg_h (snd kv))) (l_pages f)) (skipn 1 (ltxdir s')))
   = (Done, 2, 256, [[(1, fl 7); (5, fl 6)]]).
+Proof. vm_compute. reflexivity. Qed.
+
+(* ... and a transaction that spilled page 8 and then shrank an 8-page database to 6 pages: the page is in the log but
+   not in the database the transaction leaves, and not in the file (p <= commit in C03_wal_commit_exact) *)
+Example C03_spill_then_shrink :
+  let pages := map (fun p => OWrite p (mkPg (fl (p * 7919)) (if p =? 1 then 8 else 0) (p =? 1))) (seqN 1 8) in
+  let s := snd (run_group (init 2097153) (pages ++ [OCommitJournal 8; OWalHeader])) in
+  let '(o, s') := op_commit_wal s [(8, mkPg (fl 18) 0 false); (2, mkPg (fl 12) 0 false); (1, mkPg (fl 11) 6 true)] 6 in
+  (o, txid s', pageN s', map (fun f => map (fun kv => (fst kv, pg_h (snd kv))) (l_pages f)) (skipn 1 (ltxdir s')))
+  = (Done, 2, 6, [[(1, fl 11); (2, fl 12)]]).
 Proof. vm_compute. reflexivity. Qed.
